@@ -10,7 +10,7 @@ import json, os, random, re, subprocess, sys, time
 MV = '/root/scratch/mv'
 REPO = os.path.join(MV, 'repo'); VERIF = os.path.join(MV, 'verif')
 AREAS = [   # file, crate, last line of non-test code (None = whole file), properties in the order they are tried
-    ('board/src/board.rs', 'inkayaku_board', 1700, ['C01', 'C02', 'C03', 'C05', 'C13', 'C14', 'C06', 'C12']),
+    ('board/src/board.rs', 'inkayaku_board', 1700, ['C01', 'C02', 'C03', 'C05', 'C13', 'C14', 'C06', 'C12', 'C10']),
     ('board/src/board/zobrist.rs', 'inkayaku_board', 52, ['C06']),
     ('engine_core/src/engine/search.rs', 'inkayaku_engine_core', 737, ['C07', 'C08', 'C09', 'C10', 'C16']),
     ('engine_core/src/engine/heuristic/simple.rs', 'inkayaku_engine_core', 180, ['C11', 'C08', 'C10']),
